@@ -5,7 +5,43 @@ use rlib_f80::f80;
 use std::cmp::Ordering;
 
 fn vals() -> Vec<f64> {
-    vec![0.0, -0.0, 1.0, -1.0, 2.5, -2.5, f64::MIN_POSITIVE, 5e-324, -5e-324, f64::MAX, f64::MIN, f64::INFINITY, f64::NEG_INFINITY, f64::NAN, 1.0 + f64::EPSILON, 1e300, -1e-300]
+    vec![0.0, -0.0, 1.0, -1.0, 2.5, -2.5, f64::MIN_POSITIVE, 5e-324, -5e-324, f64::MAX, f64::MIN, 3.0, -7.0, 0.5, 1024.0, -1048576.0, 1e-310, -1e-310, f64::INFINITY, f64::NEG_INFINITY, f64::NAN, 1.0 + f64::EPSILON, 1e300, -1e-300]
+}
+
+/// abs / neg / min / max / exact small-integer arithmetic and the assigning operators, for ordered operands
+fn check_ops(a: f64, b: f64) -> Option<Cex> {
+    if a.is_nan() || b.is_nan() { return None; }
+    let r = guarded(|| {
+        let (x, y) = (f80::from(a), f80::from(b));
+        let mut v: Vec<(&str, f64, f64)> = vec![("abs", f64::from(x.abs()), a.abs()), ("neg", f64::from(-x), -a)];
+        if !(a == 0.0 && b == 0.0) {
+            v.push(("min", f64::from(x.min(y)), a.min(b)));
+            v.push(("max", f64::from(x.max(y)), a.max(b)));
+        }
+        // abs is never below zero and agrees in order with the operand's magnitude
+        if x.abs() < f80::from(0.0) { v.push(("abs(x) < 0", 1.0, 0.0)); }
+        if x.abs().partial_cmp(&(-x).abs()) != Some(std::cmp::Ordering::Equal) { v.push(("abs(x) vs abs(-x)", 1.0, 0.0)); }
+        // exactly representable arithmetic (small integers / halves): results must be exact
+        if a.abs() <= 1048576.0 && b.abs() <= 1048576.0 && a.fract() * 2.0 == (a.fract() * 2.0).trunc() && b.fract() * 2.0 == (b.fract() * 2.0).trunc() {
+            v.push(("add", f64::from(x + y), a + b));
+            v.push(("sub", f64::from(x - y), a - b));
+            v.push(("mul", f64::from(x * y), a * b));
+            let mut t = x; t += y; v.push(("add_assign", f64::from(t), a + b));
+            let mut t = x; t -= y; v.push(("sub_assign", f64::from(t), a - b));
+            let mut t = x; t *= y; v.push(("mul_assign", f64::from(t), a * b));
+            if b != 0.0 && (a / b) * b == a && (a / b).fract() == 0.0 {
+                v.push(("div", f64::from(x / y), a / b));
+                let mut t = x; t /= y; v.push(("div_assign", f64::from(t), a / b));
+            }
+        }
+        v
+    });
+    match r {
+        Err(e) => Some(Cex { input: format!("ops:{:016x},{:016x}", a.to_bits(), b.to_bits()), observed: e, expected: "no panic".into() }),
+        Ok(v) => v.into_iter().find(|(_, g, w)| !(g == w || (g.is_nan() && w.is_nan()))).map(|(n, g, w)| Cex {
+            input: format!("ops:{:016x},{:016x}", a.to_bits(), b.to_bits()),
+            observed: format!("a={:?} b={:?}: {} gave {:?}", a, b, n, g), expected: format!("{:?}", w) }),
+    }
 }
 
 fn check(a: f64, b: f64) -> Option<Cex> {
@@ -26,10 +62,12 @@ fn check(a: f64, b: f64) -> Option<Cex> {
 
 pub fn run(_seed: u64, replay: Option<String>) -> Outcome {
     if let Some(r) = replay {
+        let ops = r.starts_with("ops:");
+        let r = r.trim_start_matches("ops:").to_string();
         let p: Vec<&str> = r.split(',').collect();
         let a = f64::from_bits(u64::from_str_radix(p[0], 16).unwrap_or(0));
         let b = f64::from_bits(u64::from_str_radix(p.get(1).unwrap_or(&"0"), 16).unwrap_or(0));
-        return Outcome { cex: check(a, b), cases: 1 };
+        return Outcome { cex: if ops { check_ops(a, b) } else { check(a, b) }, cases: 1 };
     }
     let mut cases = 0;
     // ordered operands first, so that a *new* violation is reported ahead of the known NaN / signed-zero findings
@@ -44,6 +82,12 @@ pub fn run(_seed: u64, replay: Option<String>) -> Outcome {
                 cases += 1;
                 if let Some(c) = check(a, b) {
                     return Outcome { cex: Some(c), cases };
+                }
+                if pass == 0 {
+                    cases += 1;
+                    if let Some(c) = check_ops(a, b) {
+                        return Outcome { cex: Some(c), cases };
+                    }
                 }
             }
         }
